@@ -12,6 +12,28 @@ import PyresampleModel.Props.TieGrid
 namespace PyresampleModel.Tie
 open PyresampleModel
 
+theorem pyAbsQ_eq10 (q : Rat) : Gen.pyAbsQ q = C10.absQ q := by
+  simp only [Gen.pyAbsQ, C10.absQ]
+  by_cases h : q < 0
+  · simp [h, not_le.mpr h]
+  · simp [h, not_lt.mp h]
+
+/-- `combine_area_extents_vertical` as translated = the extent part of the model's `concatAreas` (equal widths): the two
+x edges must be equal, the seam is tested with `np.isclose(…, rtol=0, atol=1e-6·min(height₁, height₂))` in both member
+orders, anything else raises -/
+theorem tie_combine_area_extents_vertical (a b : Grid) (hw : a.w = b.w) :
+    Gen.combine_area_extents_vertical (a.x0, a.y0, a.x1, a.y1) (b.x0, b.y0, b.x1, b.y1) =
+      (C10.concatAreas a b).map (fun g => (g.x0, g.y0, g.x1, g.y1)) := by
+  have hm : ∀ p q : Rat, Gen.pyMinQ p q = C10.minQ p q := by intro p q; rfl
+  have htol : mkRat 4722366482869645 4722366482869645213696 *
+      C10.minQ (C10.absQ (a.y1 - a.y0)) (C10.absQ (b.y1 - b.y0)) = C10.seamTol a b := rfl
+  simp only [Gen.combine_area_extents_vertical, pyAbsQ_eq10, hm]
+  rw [htol]
+  simp only [C10.concatAreas, hw, ne_eq, not_true_eq_false, if_false, C10.isclose, Int.cast_zero, zero_mul, add_zero]
+  by_cases h0 : a.x0 = b.x0 <;> by_cases h1 : a.x1 = b.x1 <;>
+    by_cases c1 : C10.absQ (a.y0 - b.y1) ≤ C10.seamTol a b <;>
+    by_cases c2 : C10.absQ (a.y1 - b.y0) ≤ C10.seamTol a b <;> simp [h0, h1, c1, c2]
+
 theorem aux_indices_le' (s : PySlice) (n : Nat) : (s.indices n).1 ≤ n ∧ (s.indices n).2 ≤ n := by
   have key : ∀ i : Int, adjustIndex i n ≤ n := by
     intro i; unfold adjustIndex; split <;> split <;> omega
